@@ -4,7 +4,7 @@ import Driver.Util
 # Engine `session`: the upstream connection lifecycle (C16)
 ops (see `harness/eng/session/session.go`):
   init <auth> <disable> | connect <k> <ep> <tok> | close <k> | shutdown <k> | drop <k> | reset <k>
-  shed | dial <k> <hold> | expire <k> | server-shutdown
+  shed | dial <k> <hold> | expire <k> | server-shutdown | server-shutdown-stuck
 Each op is a fixed sequence of `Session.Ev`s; the line printed is the quiescent state the
 state machine predicts.
 -/
@@ -71,6 +71,11 @@ def step (st : St) : List String → St × String
       let s' := st.s.exitAll .shed
       ({ st with s := s' }, line s' [])
     | ["server-shutdown"] =>
+      let s' := (st.s.step .serverShutdown).exitAll .shutdown
+      ({ st with s := s' }, line s' [])
+    | ["server-shutdown-stuck"] =>
+      -- `Shutdown(ctx)` whose grace period expires (a connection stuck in its request header
+      -- keeps `http.Server.Shutdown` waiting): the shared context is cancelled all the same
       let s' := (st.s.step .serverShutdown).exitAll .shutdown
       ({ st with s := s' }, line s' [])
     | op :: k :: rest =>
